@@ -29,10 +29,13 @@ check('C01',
       'time, rate is divided by the stride, None start stays None, stop = start + len/rate, and contains is the half-open interval. '
       'C01_model_meets_spec links the model to the executable predicate C01_ok that the monitor evaluates on what the implementation '
       'returned; the correspondence run compares model and implementation on random pipelines and a small exhaustive slice sweep.',
-      'Hand-written model tied by correspondence (not regenerated). Trusted: Coq kernel, Lib/PySlice = CPython slice.indices, astropy '
+      'Hand-written model tied by correspondence; additionally the start-time / sample-rate / step>0 arithmetic of Signal._time_slice '
+      '(through which every crop and slice of the library goes) is REGENERATED from core.py by translator T4 on every run and '
+      'C01_generated_core proves the model time_slice is built from exactly those generated terms. '
+      'Trusted: Coq kernel, translator T4, Lib/PySlice = CPython slice.indices, astropy '
       'Time/Quantity = exact rationals within max(50 ps, 4e-15*elapsed); FFT-path ops (time_shift, dedispersion) are observed through '
       'their ledger only; rates 1 mHz - 5 GHz.',
-      'machine-checked proof in Coq over an exact-rational ledger model + model/implementation correspondence run (vm_compute)',
+      'machine-checked proof in Coq over an exact-rational ledger model whose slicing arithmetic is regenerated from source (T4) + model/implementation correspondence run (vm_compute)',
       'DESIGN.md 5 C01')
 check('C02',
       'Coq theorems (Props/C02.v, axiom-free): the alignment constants of the table GENERATED from core.py are 0, 1/2, 1; labels are '
